@@ -226,6 +226,21 @@ Definition touched (ops : list fsop) : list path := flat_map touched_op ops.
 
 Definition mem_path (p : path) (l : list path) : bool := existsb (path_eqb p) l.
 
+(* --- mapproxy/seed/util.py ProgressStore.write: write_atomic(self.filename, pickle.dumps(self.status)); an OSError
+   is logged, not raised.  ProgressStore.load: {} when the file does not exist or cannot be unpickled, otherwise the
+   unpickled dictionary (pickle is external: `unpickle` is a parameter of the reader, None = the exceptions load
+   catches). *)
+Definition progress_write_ops (s : fs) (p : path) (sfx d : list Z) : list fsop := fst (write_atomic_ops s p sfx d).
+Definition progress_load {A} (unpickle : list Z -> option A) (empty : A) (s : fs) (p : path) : A :=
+  match resolve s p with
+  | None => empty
+  | Some d => match unpickle d with Some st => st | None => empty end
+  end.
+
+(* --- mapproxy/cache/legend.py LegendCache.store (ensure_directory and chmod dropped) / LegendCache.load *)
+Definition legend_store_ops (s : fs) (p : path) (sfx d : list Z) : list fsop := fst (write_atomic_ops s p sfx d).
+Definition legend_load (s : fs) (p : path) : rres := read_path s p.
+
 (* comparison helpers for the correspondence *)
 Definition fsop_eqb (a b : fsop) : bool :=
   match a, b with
@@ -462,3 +477,200 @@ Fixpoint v1_store_ops (s : v1st) (b : batch) : list v1op :=
 
 (* tear granularity B (A1): a raw write [off, off+n) can be cut at c iff off < c < off+n and B | c *)
 Definition cut_allowed (B off n c : Z) : Prop := off < c < off + n /\ c mod B = 0.
+
+(* ------------------------------------------------------------------------------------------------ *)
+(* Part 3: batches that span several bundle files (CompactCacheBase.store_tiles calls store_tile for each tile
+   when the tiles are not all in one bundle file; every bundle file is an independent file; bundle id = an
+   integer key of the bundle file name) *)
+
+
+(* ---------------- a compact cache = several independent bundle files (version 2) *)
+Definition mstate := Z -> file.                       (* bundle id -> bundle file *)
+Definition mop := (Z * bwrite)%type.                  (* raw write on the file of one bundle *)
+Definition mupd (st : mstate) (b : Z) (f : file) : mstate := fun x => if x =? b then f else st x.
+Definition m_apply (st : mstate) (o : mop) : mstate := mupd st (fst o) (bw_apply (st (fst o)) (snd o)).
+Definition m_apply_all (st : mstate) (ops : list mop) : mstate := fold_left m_apply ops st.
+
+Fixpoint m_crash_states (st : mstate) (ops : list mop) : list mstate :=
+  st :: match ops with
+        | [] => []
+        | o :: r => (if v2_tearable (st (fst o)) (snd o)
+                     then map (fun k => mupd st (fst o) (fwrite (st (fst o)) (fst (snd o)) (firstn k (snd (snd o)))))
+                              (seq 0 (length (snd (snd o))))
+                     else [])
+                    ++ m_crash_states (m_apply st o) r
+        end.
+
+Definition m_proj (b : Z) (ops : list mop) : list bwrite := map snd (filter (fun o => fst o =? b) ops).
+
+Definition mtile := (Z * Z * list Z)%type.            (* (bundle id, slot, tile bytes) in store order *)
+Definition m_batch_of (b : Z) (tiles : list mtile) : batch :=
+  map (fun t => (snd (fst t), snd t)) (filter (fun t => fst (fst t) =? b) tiles).
+
+(* CompactCacheBase.store_tiles over several bundles: one BundleV2.store_tiles([tile]) per tile, in order *)
+Fixpoint m_store_ops (st : mstate) (tiles : list mtile) : list mop :=
+  match tiles with
+  | [] => []
+  | (b, slot, d) :: r =>
+      let o := map (fun w => (b, w)) (v2_tile_ops (st b) slot d) in
+      o ++ m_store_ops (m_apply_all st o) r
+  end.
+
+(* ---------------- the same for version 1 (a bundle = .bundle + .bundlx pair) *)
+Definition m1state := Z -> v1st.
+Definition m1op := (Z * v1op)%type.
+Definition m1upd (st : m1state) (b : Z) (s : v1st) : m1state := fun x => if x =? b then s else st x.
+Definition m1_apply (st : m1state) (o : m1op) : m1state := m1upd st (fst o) (v1_apply (st (fst o)) (snd o)).
+Definition m1_apply_all (st : m1state) (ops : list m1op) : m1state := fold_left m1_apply ops st.
+
+Fixpoint m1_crash_states (st : m1state) (ops : list m1op) : list m1state :=
+  st :: match ops with
+        | [] => []
+        | o :: r => map (fun s => m1upd st (fst o) s) (v1_tears (st (fst o)) (snd o))
+                    ++ m1_crash_states (m1_apply st o) r
+        end.
+
+Definition m1_proj (b : Z) (ops : list m1op) : list v1op := map snd (filter (fun o => fst o =? b) ops).
+
+(* CompactCacheBase.store_tiles over several bundles: one BundleV1.store_tiles([tile]) per tile, in order *)
+Fixpoint m1_store_ops (st : m1state) (tiles : list mtile) : list m1op :=
+  match tiles with
+  | [] => []
+  | (b, slot, d) :: r =>
+      let o := map (fun w => (b, w)) (v1_tile_ops (st b) slot d) in
+      o ++ m1_store_ops (m1_apply_all st o) r
+  end.
+
+
+(* ------------------------------------------------------------------------------------------------ *)
+(* Part 4: bundle files as files of a compact cache directory: the initialisation of a missing bundle / index file
+   (write_atomic: exclusive temp name, content, rename) and the in-place phase are one operation list, so that one
+   crash theorem covers a complete BundleV2.store_tiles / BundleV1.store_tiles call.  File contents are the
+   write-log files of Bytes.v; BPut t g = the raw write(s) that fill the empty temp file t with content g (any
+   prefix of g in a crash state). *)
+
+(* Part 3: a compact cache directory: the bundle / index / temp files by path, the raw operations of a
+   complete store_tiles call (initialisation of missing files by write_atomic, then the in-place writes
+   of part 2), crash states and the readers that treat a missing file as "every tile missing". *)
+
+Definition bdir := path -> option file.
+Definition bd_upd (s : bdir) (p : path) (v : option file) : bdir :=
+  fun q => if path_eqb q p then v else s q.
+Definition fempty : file := mkFile 0 (fun _ => 0).
+Definition ftake (g : file) (k : Z) : file := mkFile k (fat g).       (* the first k bytes of g *)
+
+Inductive bop :=
+| BCreate (t : path)              (* os.open(t, O_CREAT|O_EXCL|O_WRONLY) *)
+| BPut (t : path) (g : file)      (* the raw write(s) filling the empty temp file t with content g *)
+| BRename (t p : path)
+| BUnlink (t : path)
+| BW (p : path) (w : bwrite)      (* one in-place raw write on an existing v2 bundle file *)
+| BWD (p : path) (off : Z) (d : list Z)   (* one in-place raw write on an existing v1 .bundle file *)
+| BWI (p : path) (off : Z) (d : list Z).  (* one in-place raw write on an existing v1 .bundlx file *)
+
+Definition b_apply (s : bdir) (o : bop) : bdir :=
+  match o with
+  | BCreate t => bd_upd s t (Some fempty)
+  | BPut t g => match s t with Some _ => bd_upd s t (Some g) | None => s end
+  | BRename t p => match s t with Some f => bd_upd (bd_upd s t None) p (Some f) | None => s end
+  | BUnlink t => bd_upd s t None
+  | BW p w => match s p with Some f => bd_upd s p (Some (bw_apply f w)) | None => s end
+  | BWD p off d => match s p with Some f => bd_upd s p (Some (fwrite f off d)) | None => s end
+  | BWI p off d => match s p with Some f => bd_upd s p (Some (fwrite f off d)) | None => s end
+  end.
+Definition b_apply_all (s : bdir) (ops : list bop) : bdir := fold_left b_apply ops s.
+
+(* tears: a temp file may hold any prefix of its content; in-place writes tear as in v2_crash_states /
+   v1_tears (index entries are written atomically) *)
+Definition b_tears (s : bdir) (o : bop) : list bdir :=
+  match o with
+  | BPut t g => match s t with
+                | Some _ => map (fun k => bd_upd s t (Some (ftake g (Z.of_nat k)))) (seq 0 (Z.to_nat (flen g)))
+                | None => [] end
+  | BW p w => match s p with
+              | Some f => if v2_tearable f w then map (fun f' => bd_upd s p (Some f')) (bw_tears f w) else []
+              | None => [] end
+  | BWD p off d => match s p with
+                   | Some f => map (fun k => bd_upd s p (Some (fwrite f off (firstn k d)))) (seq 0 (length d))
+                   | None => [] end
+  | _ => []
+  end.
+
+Fixpoint b_crash_states (s : bdir) (ops : list bop) : list bdir :=
+  s :: match ops with [] => [] | o :: r => b_tears s o ++ b_crash_states (b_apply s o) r end.
+
+Definition bd_exists (s : bdir) (p : path) : bool := match s p with Some _ => true | None => false end.
+
+(* paths an operation creates, writes, removes or replaces *)
+Definition b_touched_op (o : bop) : list path :=
+  match o with
+  | BCreate t => [t]
+  | BPut t _ => [t]
+  | BRename t p => [t; p]
+  | BUnlink t => [t]
+  | BW p _ => [p]
+  | BWD p _ _ => [p]
+  | BWI p _ _ => [p]
+  end.
+Definition b_touched (ops : list bop) : list path := flat_map b_touched_op ops.
+
+(* write_atomic(p, g) once the temp name t is known to be free *)
+Definition b_init_ops (t p : path) (g : file) : list bop := [BCreate t; BPut t g; BRename t p].
+
+(* BundleV2.store_tiles on bundle file p with temp suffix sfx (write_atomic raises when the temp name
+   exists: unlink it, stop) *)
+Definition v2_dir_store_ops (s : bdir) (p : path) (sfx : list Z) (b : batch) : list bop :=
+  match s p with
+  | Some f => map (BW p) (v2_store_ops f b)
+  | None => let t := tmp_of p sfx in
+            if bd_exists s t then [BUnlink t]
+            else [BCreate t; BPut t v2_init; BRename t p] ++ map (BW p) (v2_store_ops v2_init b)
+  end.
+
+Definition v2_dir_read (s : bdir) (p : path) (slot : Z) : rres :=
+  match s p with None => RMissing | Some f => v2_read f slot end.
+
+(* ---- version 1: two files pd (.bundle) and pi (.bundlx) *)
+Definition v1_bop (pd pi : path) (o : v1op) : bop :=
+  match o with WD off d => BWD pd off d | WI off d => BWI pi off d end.
+
+(* the in-place phase: both files exist *)
+Definition v1_dir_inplace_ops (s : bdir) (pd pi : path) (b : batch) : list bop :=
+  match s pd, s pi with
+  | Some fd, Some fi => map (v1_bop pd pi) (v1_store_ops (mkV1 fd fi) b)
+  | _, _ => []
+  end.
+
+(* index().readwrite(): _init_index (write_atomic of the initial index when the file is missing), then in place *)
+Definition v1_dir_idx_ops (s : bdir) (pd pi : path) (sfx2 : list Z) (b : batch) : list bop :=
+  match s pi with
+  | Some _ => v1_dir_inplace_ops s pd pi b
+  | None => let t := tmp_of pi sfx2 in
+            if bd_exists s t then [BUnlink t]
+            else let i := b_init_ops t pi v1_idx_init in
+                 i ++ v1_dir_inplace_ops (b_apply_all s i) pd pi b
+  end.
+
+(* BundleV1.store_tiles for the bundle with origin (c, r): data() (BundleDataV1.__init__ initialises a
+   missing .bundle by write_atomic), then the index, then the in-place writes *)
+Definition v1_dir_store_ops (s : bdir) (pd pi : path) (sfx1 sfx2 : list Z) (c r : Z) (b : batch) : list bop :=
+  match s pd with
+  | Some _ => v1_dir_idx_ops s pd pi sfx2 b
+  | None => let t := tmp_of pd sfx1 in
+            if bd_exists s t then [BUnlink t]
+            else let i := b_init_ops t pd (v1_dat_init c r) in
+                 i ++ v1_dir_idx_ops (b_apply_all s i) pd pi sfx2 b
+  end.
+
+(* BundleV1.load_tiles: a missing index file means every tile is missing; an index without its data file
+   makes open() raise *)
+Definition v1_dir_read (s : bdir) (pd pi : path) (slot : Z) : rres :=
+  match s pi with
+  | None => RMissing
+  | Some fi => match s pd with None => RError | Some fd => v1_read (mkV1 fd fi) slot end
+  end.
+
+(* the bundle the in-place phase of store_tiles works on: missing files replaced by their initial content *)
+Definition v1_dir_eff (s : bdir) (pd pi : path) (c r : Z) : v1st :=
+  mkV1 (match s pd with Some fd => fd | None => v1_dat_init c r end)
+       (match s pi with Some fi => fi | None => v1_idx_init end).
